@@ -175,10 +175,11 @@ theorem geoAssigned_of_assigned {G : Geo} {n : Index.Net} (hs : Index.Sync n) {f
   · obtain ⟨dc, ds, a, b, c, d⟩ := h2 hk
     exact ⟨dc, ds, _, _, a, b, c, d, nodup_cenOf hs o t, (shpOf_spec hs o t).1, mem_cenOf hs o t, mem_shpOf hs o t⟩
 
-/-- registries = lookup relation, for every state that satisfies the invariant and is assigned over all horizons -/
+/-- registries = lookup relation, for every state that satisfies the invariant and is assigned over all horizons
+    (set-based predictions, which the code neither assigns nor registers, excepted) -/
 theorem registry_exact_of_assigned {E : Env} {s : St} (hi : Inv E s)
-    (ha : ∀ o, o ∈ s.statics ++ s.dynamics → ∀ t, InHorizon E o t → Assigned E (s.fwd o) o t) :
-    (∀ l t o, memD s.dreg l t o ↔ (o ∈ s.dynamics ∧ InHorizon E o t ∧ l ∈ E.shp o t)) ∧
+    (ha : ∀ o, o ∈ s.statics ++ s.dynamics → E.kind o ≠ Kind.dynSet → ∀ t, InHorizon E o t → Assigned E (s.fwd o) o t) :
+    (∀ l t o, memD s.dreg l t o ↔ (o ∈ s.dynamics ∧ E.kind o ≠ Kind.dynSet ∧ InHorizon E o t ∧ l ∈ E.shp o t)) ∧
     (∀ l o, o ∈ s.sreg l ↔ (o ∈ s.statics ∧ l ∈ E.shp o (E.t0 o))) := by
   constructor
   · intro l t o
@@ -186,9 +187,11 @@ theorem registry_exact_of_assigned {E : Env} {s : St} (hi : Inv E s)
     simp only [true_and]
     constructor
     · rintro ⟨h1, h2⟩
-      exact ⟨h1, (rec_iff_lookup (hi.coh o) (fun t' ht' => ha o (List.mem_append.mpr (Or.inr h1)) t' ht') t l).mp h2⟩
-    · rintro ⟨h1, h2⟩
-      exact ⟨h1, (rec_iff_lookup (hi.coh o) (fun t' ht' => ha o (List.mem_append.mpr (Or.inr h1)) t' ht') t l).mpr h2⟩
+      have hset := RecShapeD.not_set (hi.coh o) h2
+      exact ⟨h1, hset,
+        (rec_iff_lookup (hi.coh o) (fun t' ht' => ha o (List.mem_append.mpr (Or.inr h1)) hset t' ht') t l).mp h2⟩
+    · rintro ⟨h1, hset, h2⟩
+      exact ⟨h1, (rec_iff_lookup (hi.coh o) (fun t' ht' => ha o (List.mem_append.mpr (Or.inr h1)) hset t' ht') t l).mpr h2⟩
   · intro l o
     rw [hi.invS]
     simp only [true_and]
@@ -196,7 +199,8 @@ theorem registry_exact_of_assigned {E : Env} {s : St} (hi : Inv E s)
     · rintro ⟨h1, h2⟩
       exact ⟨h1, RecShapeS.mem_lanelets (hi.coh o) h2⟩
     · rintro ⟨h1, h2⟩
-      obtain ⟨a1, _⟩ := ha o (List.mem_append.mpr (Or.inl h1)) (E.t0 o) (Or.inl rfl)
+      have hset : E.kind o ≠ Kind.dynSet := by rw [hi.kindS o h1]; intro h; cases h
+      obtain ⟨a1, _⟩ := ha o (List.mem_append.mpr (Or.inl h1)) hset (E.t0 o) (Or.inl rfl)
       exact ⟨h1, _, (a1 rfl).2, h2⟩
 
 end CR.Assign
